@@ -282,6 +282,34 @@ Definition scan_block (c : params) (prior : option pmeta) (keys : list key) (nfs
   Ok (Sc h hash (b_time b) (filter wtx_nonempty (map tr_wtx l))
          (mk_bundle Sapling fin l) (mk_bundle Orchard fin l) (mk_bundle Ironwood fin l)).
 
+(** ---- Nullifiers::update_with and the in-memory batch loop of scan_cached_blocks ---------- *)
+(** per pool: drop the tracked entries whose nullifier was spent in the block, then append
+    (account, nullifier) of every wallet output found in THAT pool, in block order *)
+Definition spent_nfs (p : pool) (txs : list wtx) : list N :=
+  flat_map (fun wt => map (fun s => snd (fst s)) (wt_sp p wt)) txs.
+Definition recv_nfs (p : pool) (txs : list wtx) : list (N * N) :=
+  flat_map (fun wt => flat_map (fun w => match w_nf w with Some nf => [(w_acct w, nf)] | None => [] end)
+                               (wt_out p wt)) txs.
+Definition upd_pool (p : pool) (nfs : nfset) (txs : list wtx) : list (N * N) :=
+  filter (fun e => negb (existsb (N.eqb (snd e)) (spent_nfs p txs))) (tracked p nfs) ++ recv_nfs p txs.
+Definition update_with (nfs : nfset) (txs : list wtx) : nfset :=
+  Nfs (upd_pool Sapling nfs txs) (upd_pool Orchard nfs txs) (upd_pool Ironwood nfs txs).
+(** ScannedBlock::to_block_metadata *)
+Definition meta_of (r : scanned) : pmeta :=
+  Pm (s_height r) (s_hash r) (Some (bn_final (s_sap r))) (Some (bn_final (s_orch r))) (Some (bn_final (s_iw r))).
+(** the loop of scan_cached_blocks (and of any caller chaining scan_block / update_with): each
+    block is scanned against the metadata of the previous one and the updated nullifier set; the
+    first rejection aborts the batch and nothing is returned *)
+Fixpoint scan_batch (c : params) (prior : option pmeta) (keys : list key) (nfs : nfset) (bs : list cblock)
+    : res (list scanned) :=
+  match bs with
+  | [] => Ok []
+  | b :: rest =>
+      r <- scan_block c prior keys nfs b ;;
+      rs <- scan_batch c (Some (meta_of r)) keys (update_with nfs (s_txs r)) rest ;;
+      Ok (r :: rs)
+  end.
+
 End WithOracles.
 
 (** ---- instantiation of the oracles from the generator's ground truth ---------------------- *)
